@@ -41,6 +41,7 @@ TRUSTED = [
 TOL = 1e-9
 OUT_SCALE = 2 ** 32
 P_EXP, KRIG = 1.3, 20
+R2 = 5201                                              # coq/C15/Model.v R2: floor of the squared crossing distance
 R_KEEP = KRIG * (-math.log(0.005)) ** (1 / P_EXP)       # distance at which the raw weight crosses 0.005 (72.13 um)
 CONSTS = {"c_0005": (0.005, 5764607523034235, 60), "c_002": (0.02, 5764607523034235, 58),
           "c_14": (1.4, 3152519739159347, 51), "c_m075": (-0.75, -3, 2)}
@@ -122,7 +123,8 @@ def label_vectors_384(rng, nc=384):
         lab[i] = 3
     ncl = rng.choice([1, 2, 3, 5, 8])
     for _ in range(ncl):
-        size = rng.choice([1, 1, 2, 3, 4, 6, 9])
+        # small clusters, and now and then a whole faulty bank (wider than the kriging range on every probe)
+        size = rng.choice([1, 1, 2, 3, 4, 6, 9, 15, 16, 19, 20, 40, 200])
         start = rng.choice([0, 1, nc - size, nc - size - 1, nc - top - size // 2 - 1,
                             rng.randrange(0, nc), rng.randrange(0, nc), rng.randrange(0, nc)])
         for i in range(max(0, start), min(nc, start + size)):
@@ -145,6 +147,15 @@ def impl_interp(x, y, labels, data, dtype, label_float):
     return np.asarray(out)
 
 
+def dtype_tol(dtype, scale):
+    """float64: 1e-9 relative; float32: 1e-5 relative; integer arrays: the float result is cast back
+    (truncated) into the array, so one unit."""
+    dt = np.dtype(dtype)
+    if dt.kind in "iu":
+        return 1.0
+    return (TOL if dt == np.float64 else 1e-5) * scale
+
+
 def oracle_interp(x, y, labels, data, out, dtype):
     """Property predicate on the implementation's output (no model involved)."""
     bad = []
@@ -157,7 +168,7 @@ def oracle_interp(x, y, labels, data, out, dtype):
     if not np.array_equal(out[~isbad].view(np.uint8), d[~isbad].view(np.uint8)):
         bad.append("a channel not labelled dead/noisy was modified")
     scale = max(1.0, float(np.max(np.abs(d), initial=0)))
-    tol = (TOL if np.dtype(dtype) == np.float64 else 1e-5) * scale
+    tol = dtype_tol(dtype, scale)
     for i in np.flatnonzero(isbad):
         dist = np.hypot(np.asarray(x, dtype=float) - float(x[i]), np.asarray(y, dtype=float) - float(y[i]))
         near = (~isbad) & (dist <= R_KEEP * (1 + 1e-9))
@@ -202,7 +213,27 @@ def oracle_weights(x, y, labels):
         e[i] = 1
         if not np.array_equal(out[i], e):
             bad.append("channel %d (not dead/noisy) is not passed through" % i)
-    return bad
+    srcs = [[int(j) for j in np.flatnonzero(out[i] != 0)] for i in np.flatnonzero(isbad)]
+    return bad, srcs
+
+
+def check_weight_cut(ctx, name, x, y, seen):
+    """Hypothesis `weight_by_distance` of theorems 10/11 on this geometry: the raw weight of the source's
+    expression is >= 0 and is < 0.005 exactly when the (integer) squared distance exceeds R2 = 5201."""
+    key = (x.tobytes(), y.tobytes())
+    if key in seen:
+        return
+    seen.add(key)
+    xi, yi = [int(v) for v in x], [int(round(float(v))) for v in y]
+    if any(float(a) != b for a, b in zip(y, yi)):
+        return
+    for i in range(len(xi)):
+        w = raw_weights(x, y, i)
+        d2 = np.array([(a - xi[i]) ** 2 + (b - yi[i]) ** 2 for a, b in zip(xi, yi)])
+        if np.any(w < 0) or not np.array_equal(w < 0.005, d2 > R2):
+            ctx.disagree("raw weights do not cross 0.005 at squared distance %d on geometry %s" % (R2, name),
+                         {"op": "weight-cut", "geom": name, "channel": i}, {"op": "geo"})
+            return
 
 
 def enc_interp(x, y, labels, data_int, kd):
@@ -225,7 +256,7 @@ def compare_interp(model_out, out, labels, scale, dtype):
     if len(model_out) != flat.size:
         return "model output has %d values, implementation %d" % (len(model_out), flat.size)
     ns = out.shape[1] if out.ndim == 2 else 0
-    tol = (TOL if np.dtype(dtype) == np.float64 else 1e-5) * scale + 2.0 / OUT_SCALE
+    tol = dtype_tol(dtype, scale) + 2.0 / OUT_SCALE
     for k, (mv, iv) in enumerate(zip(model_out, flat)):
         r = k // ns if ns else 0
         if labels[r] in (1, 2):
